@@ -28,8 +28,8 @@ PROPS = {
 }
 
 PROPS["C02"] = {
-    "modules": ["C02"],
-    "required_theorems": ["C02_holds", "step_ban"],
+    "modules": ["C02", "C02b"],
+    "required_theorems": ["C02_holds", "step_ban", "C02b_holds", "checks02_mono", "step_keeps_booting"],
     "monitors": ["C02"], "restart_fidelity": {"quick": 60, "thorough": 1500},
     "fields": ["ret", "net", "pj", "sj"],
     "campaign": camp([("lifecycle", 400), ("mixed", 300), ("rollback", 200), ("chaos", 200), ("release", 100), ("signing", 100)],
